@@ -106,8 +106,10 @@ impl CircuitCurve for JubjubExtended {
         // significant bit.
         bytes[31] |= x_sign;
 
-        let point = JubjubAffine::from_bytes(bytes).into_option().expect("Failed here");
-        if point.get_v() == y {
+        // The encoding only carries `y` and the parity of `x`: the decoded point has to be
+        // compared with both coordinates (and `y` may not be on the curve at all).
+        let point = JubjubAffine::from_bytes(bytes).into_option()?;
+        if point.get_u() == x && point.get_v() == y {
             Some(point.into())
         } else {
             None
